@@ -19,7 +19,7 @@ ALLOWED_AXIOMS = set()  # the development is closed under the global context; ex
 TRUSTED_BASE = [
     "Coq 8.16.1 kernel (coqc; vm_compute used for consts_wf, finite sweeps, refutation witnesses and model evaluation; no native_compute)",
     "axioms: none expected (Print Assumptions under every property theorem is compared with 'Closed under the global context')",
-    "translators harness/gen_consts.py (literals of /repo -> coq/gen/Consts_here.v) and harness/gen_exprs.py (decision expressions -> coq/gen/Exprs_here.v), both fail-closed",
+    "translators harness/gen_consts.py (literals of /repo -> coq/gen/Consts_here.v) and harness/gen_exprs.py (decision expressions -> coq/gen/Exprs_<area>.v, tied to the model by proofs/Tied_<area>.v), both fail-closed",
     "correspondence harness (harness/*.py): generators, adapters calling the implementation, Coq term printer and output parser, canonicalisation",
     "model evaluated inside Coq by Eval vm_compute on generated cases files (no extraction)",
     "modelled rather than verified: the Python code itself; the theorems are about the Gallina model tied to /repo by translator + correspondence",
@@ -211,18 +211,73 @@ class Build:
         self.assumptions = {}  # theorem -> list of axioms ([] = closed)
         self.log = ""
         self.coqchk = None
+        self.failed_literals = {}
+
+
+NOTES = []   # translator remarks of this process (fail-closed groups), printed with the broken obligations
 
 
 def regenerate():
     """re-run the translators (literals, decision expressions); returns (ok, message)"""
     msgs, ok = [], True
-    for script, target in (("gen_consts.py", "Consts_here.v"), ("gen_exprs.py", "Exprs_here.v")):
+    for script, target in (("gen_consts.py", "Consts_here.v"), ("gen_exprs.py", "Exprs_.v")):
         rc, out = _sh([sys.executable, os.path.join(VERIF, "harness", script), os.path.join(COQ, "gen", target)],
                       env=dict(os.environ, ALDY_REPO=REPO))
         ok = ok and rc == 0
         if rc != 0:
             msgs.append(f"{script}: {out.strip()[-700:]}")
+        for ln in out.splitlines():
+            if ln.startswith("FAIL-CLOSED group"):
+                # one source area could not be translated: gen/Exprs_<area>.v holds no definitions, so proofs/Tied_<area>.v
+                # (and with it only the properties that depend on that area) stops compiling
+                NOTES.append(f"{script}: {ln}")
     return ok, "; ".join(msgs)
+
+
+def failed_literals():
+    p = os.path.join(COQ, "gen", "consts_status.json")
+    try:
+        return json.load(open(p)).get("failed", {})
+    except Exception:
+        return {}
+
+
+def harness_modules(prop):
+    """harness files a property's check is made of: harness/<prop>.py and the c??.py modules it imports, transitively"""
+    seen, todo = [], [prop.lower()]
+    while todo:
+        m = todo.pop()
+        f = os.path.join(VERIF, "harness", m + ".py")
+        if m in seen or not os.path.exists(f):
+            continue
+        seen.append(m)
+        for x in re.findall(r"^\s*(?:import|from)\s+(c\d\d)\b", open(f).read(), re.M):
+            todo.append(x)
+        for x in re.findall(r"^\s*import\s+.*?\b(c\d\d)\b", open(f).read(), re.M):
+            todo.append(x)
+    return [os.path.join(VERIF, "harness", m + ".py") for m in seen]
+
+
+def literal_relevant(prop, field, closure_files):
+    """does the model closure of the property (outside the files that merely carry the record) or its harness mention the literal?"""
+    carriers = ("theories/Consts.v", "gen/Consts_here.v", "gen/Consts_wf.v")
+    coq_name = re.compile(r"\bc_" + re.escape(field) + r"\b")
+    if field in ("vcf_q", "vcf_read_sites"):
+        coq_name = re.compile(r"\bc_vcf_(q|reads)\b")
+    if field == "bin_top":
+        coq_name = re.compile(r"\bc_bin(s|_top)\b")
+    for f in closure_files:
+        if f in carriers:
+            continue
+        try:
+            if coq_name.search(strip_comments(open(os.path.join(COQ, f)).read())):
+                return True
+        except OSError:
+            return True
+    for f in harness_modules(prop):
+        if re.search(r"[\"']" + re.escape(field) + r"[\"']", open(f).read()):
+            return True
+    return False
 
 
 def closure(prop_file):
@@ -244,6 +299,7 @@ def build(prop, extra_targets=(), thorough=False):
         if not ok:
             b.broken.append(("translator", msg[-1500:]))
             # keep going with the stale gen file if there is one: the search for a failing input still needs the model
+        b.failed_literals = failed_literals()
         changed = write_coqproject()
         if changed or not os.path.exists(os.path.join(COQ, "Makefile")):
             rc, out = _sh(["coq_makefile", "-f", "_CoqProject", "-o", "Makefile"], cwd=COQ)
@@ -293,6 +349,12 @@ def build(prop, extra_targets=(), thorough=False):
     finally:
         fcntl.flock(lock, fcntl.LOCK_UN)
         lock.close()
+    # literals the translator could not read: broken for this property iff its model closure or its harness mentions the field
+    for field, why in getattr(b, "failed_literals", {}).items():
+        if literal_relevant(prop, field, b.files):
+            b.broken.append((f"translator:c_{field}", why))
+        else:
+            NOTES.append(f"gen_consts.py: literal {field} could not be read ({why}); not used by {prop}")
     # audit + obligation count
     n = 0
     for f in b.files:
@@ -514,6 +576,9 @@ class Check:
             print(ln)
         for k, n, d in self.broken:
             print(f"BROKEN {k}: {n}")
+        if self.broken:
+            for ln in dict.fromkeys(NOTES):
+                print("NOTE", ln)
         for ln in lines:
             print(ln)
         print(f"[{self.prop}] tier={self.tier} seed={self.seed} obligations={self.obligations} discharged={self.discharged} "
